@@ -73,14 +73,16 @@ const maxSamples = 4
 
 // W is the per-worker context handed to phases.
 type W struct {
-	Prop     string
-	Tier     string
-	Shard    int
-	NShards  int
-	Seed     int64
-	Budget   time.Duration // budget of the current phase
-	start    time.Time     // start of the current phase
-	deadline time.Time
+	Prop    string
+	Tier    string
+	Shard   int
+	NShards int
+	Seed    int64
+	// PanicOutOfScope: see Check.PanicOutOfScope
+	PanicOutOfScope bool
+	Budget          time.Duration // budget of the current phase
+	start           time.Time     // start of the current phase
+	deadline        time.Time
 
 	cur       *PhaseResult
 	outcomes  map[uint64]struct{}
@@ -211,6 +213,11 @@ func (w *W) recoverCase() {
 	st := string(debug.Stack())
 	origin := panicOrigin(st)
 	if strings.HasPrefix(origin, ImplPkg) {
+		if w.PanicOutOfScope {
+			vrt.ResetCounters(0, 0)
+			w.Extra("cases_where_the_call_panicked_out_of_scope_here", 1)
+			return
+		}
 		w.Fail("panic", fmt.Sprintf("%v at %s", r, origin))
 		return
 	}
@@ -223,17 +230,20 @@ func (w *W) recoverCase() {
 // panicOrigin extracts the function in which the panic was raised from a stack dump.
 func panicOrigin(st string) string {
 	lines := strings.Split(st, "\n")
-	seenPanic := false
+	// a deferred function that re-panics (budget handlers do) puts a second "panic(" above the original one:
+	// the origin is below the LAST one
+	last := -1
+	for i, l := range lines {
+		if strings.HasPrefix(l, "panic(") {
+			last = i
+		}
+	}
 	first := ""
-	for _, l := range lines {
+	for i, l := range lines {
 		if strings.HasPrefix(l, "\t") {
 			continue
 		}
-		if strings.HasPrefix(l, "panic(") {
-			seenPanic = true
-			continue
-		}
-		if !seenPanic {
+		if last < 0 || i <= last {
 			continue
 		}
 		fn := l
